@@ -460,7 +460,7 @@ def replay(wit):
 
 LEVEL = 'exploration'
 TECHNIQUE = 'runtime oracle: reference truncation + token-stream checker for the truncation notices, exhaustive two-level container shapes x all N'
-LEVEL_TEXT = ('Every two-level container shape with lengths 0..4 (8 container kinds incl. subclasses, both leaf kinds) and random three-level trees are printed at every '
+LEVEL_TEXT = ('Every two-level container shape with lengths 0..4 (12 container kinds incl. subclasses, namedtuple / defaultdict / Counter / deque holders, both leaf kinds), random three-level trees, commented values and containers of 1000 .. 12345 elements are printed at every '
               'N from 1 to max length + 1, None and 10**9; the evaluated output must equal the reference truncation and the notices must match the expected '
               '(K, bracket depth) sequence exactly.')
 LEVEL_NOTE = 'Lengths are bounded by 4 and depth by 3; widths {1,20,79}; in the quick tier width/sort are sampled per shape and N.'
